@@ -5,6 +5,9 @@ import CorgiModel.Step
 import CorgiProofs.Matmul
 import CorgiSpec.Oracle
 import CorgiProofs.Composite
+import CorgiProofs.Conv
+import CorgiProps.C04
+import CorgiProps.C06
 
 set_option linter.unusedSectionVars false
 
@@ -80,6 +83,53 @@ theorem C15_costs_executed (σ σ' : State S) (o t r : Handle) :
     (o.buf < σ.bufs.size → hXent σ o t = .ok (σ', r) → crossEntropy (σ.tensorOf o) (σ.tensorOf t) = .ok (σ'.tensorOf r)) :=
   ⟨fun ht hok => (sound_hMse σ o t ht σ' r hok).1, fun ho hok => (sound_hXent σ o t ho σ' r hok).1⟩
 
+
+/-- **The convolutional layer's value**, for every batch shape, depth, image / filter size, filter
+    count and stride: with input `x : B ++ [D, R, C]`, filters `[K, D, fr, fc]` and bias `[K, 1, 1]`
+    (all well-formed), the forward pass returns — before the activation — the sliding-window
+    convolution plus the bias of each filter broadcast over its output plane:
+    `[b.., f, y, x] = (Σ_k Σ_m Σ_n x[b.., k, y·sr+m, x·sc+n] · filter[f, k, m, n]) + bias[f]`. -/
+theorem C15_conv_layer_value [AddLaws S] (σ σ' : State S) (f b x r : Handle) (B : List Nat) (D R C K fr fc sr sc : Nat)
+    (hdx : x.dims = B ++ [D, R, C]) (hdf : f.dims = [K, D, fr, fc]) (hdb : b.dims = [K, 1, 1])
+    (hwx : (σ.tensorOf x).WF) (hwf : (σ.tensorOf f).WF) (hwb : (σ.tensorOf b).WF)
+    (hbf : f.buf < σ.bufs.size) (hbb : b.buf < σ.bufs.size)
+    (hfr : fr ≤ R) (hfc : fc ≤ C) (hsr : 1 ≤ sr) (hsc : 1 ≤ sc)
+    (hok : layerForward σ (.conv f b sr sc .none) x = .ok (σ', r)) :
+    σ'.tensorOf r = specEwise (· + ·) (specConv (σ.tensorOf x) (σ.tensorOf f) sr sc) (σ.tensorOf b) := by
+  simp only [layerForward] at hok
+  obtain ⟨⟨σ1, c⟩, e1, e2⟩ := bindOk hok
+  obtain ⟨⟨σ2, r0⟩, e3, e4⟩ := bindOk e2
+  simp only [hAct, pure, Except.pure, Except.ok.injEq, Prod.mk.injEq] at e4
+  obtain ⟨rfl, rfl⟩ := e4
+  have hc := C06_conv_executed σ σ1 x f c B D R C K fr fc sr sc hdx hdf hwx hwf hbf hfr hfc hsr hsc e1
+  obtain ⟨_, x1, _⟩ := sound_hConv σ x f sr sc hbf σ1 c e1
+  obtain ⟨v3, _, _⟩ := sound_hEwise (.add : OpTag S) add σ1 c b σ2 r0 e3
+  rw [hc, tensorOf_ext x1 b hbb] at v3
+  -- the convolution output is a well-formed array whose dimensions the bias broadcasts to
+  have hdims : (specConv (σ.tensorOf x) (σ.tensorOf f) sr sc).dims = B ++ [K, (R - fr) / sr + 1, (C - fc) / sc + 1] := by
+    have ei : σ.tensorOf x = ⟨B ++ [D, R, C], (σ.tensorOf x).vals⟩ := by simp [State.tensorOf, hdx]
+    have ef : σ.tensorOf f = ⟨[K, D, fr, fc], (σ.tensorOf f).vals⟩ := by simp [State.tensorOf, hdf]
+    rw [ei, ef]; exact C06_spec_dims B D R C K D fr fc sr sc _ _
+  have hK : 1 ≤ K := hwf.1 K (by simp [State.tensorOf, hdf])
+  have hposB : ∀ d ∈ B, 1 ≤ d := fun d hd => hwx.1 d (by simp [State.tensorOf, hdx, hd])
+  have hwc : (specConv (σ.tensorOf x) (σ.tensorOf f) sr sc).WF := by
+    refine ⟨?_, by simp [specConv, Tensor.ofFn]⟩
+    rw [hdims]
+    intro d hd; simp at hd
+    rcases hd with hd | hd | hd | hd
+    · exact hposB d hd
+    · omega
+    · rw [hd]; exact Nat.succ_pos _
+    · rw [hd]; exact Nat.succ_pos _
+  have hcompat : Compat (specConv (σ.tensorOf x) (σ.tensorOf f) sr sc).dims (σ.tensorOf b).dims = true := by
+    rw [hdims]
+    have : (σ.tensorOf b).dims = [K, 1, 1] := by simp [State.tensorOf, hdb]
+    rw [this]
+    simp [Compat, compatRev]
+  rw [C04_add _ _ hwc hwb (by rw [hdims]; simp) (by simp [State.tensorOf, hdb]) hcompat] at v3
+  simp only [Except.ok.injEq] at v3
+  exact v3.symm
+
 end Corgi
 
 #print axioms Corgi.C15_dense
@@ -90,3 +140,4 @@ end Corgi
 #print axioms Corgi.C15_dense_value
 #print axioms Corgi.C15_activations
 #print axioms Corgi.C15_costs_executed
+#print axioms Corgi.C15_conv_layer_value
